@@ -250,7 +250,12 @@ func Chain[T any](iters ...*fun.Iterator[T]) *fun.Iterator[T] {
 				}
 				break
 			}
-			ec.Add(iter.Close())
+			if err := iter.Close(); err != nil {
+				// the iterator did not end, it failed: the
+				// chain ends here as well.
+				ec.Add(err)
+				return
+			}
 		}
 	}).Go().Once()
 
